@@ -565,9 +565,90 @@ def integration_probe(scenario):
     return simnet.run(go)
 
 
-def name_forms_probe(name, address):
+def app_disconnect_probe(how, slow_on, connect_pending):
+    """The real APIClient driven by the real ReconnectLogic over SimNet; the APPLICATION ends the established session itself
+    (client.disconnect(), graceful and acknowledged, or forced) while the manager is started. The application's on_disconnect
+    callback awaits something (slow_on='disconnect'), or its on_connect callback is still running when the session ends
+    (connect_pending). on_disconnect runs once for that session, to its end, with expected=True, and the next attempt starts after
+    the 5 s cool-down. Returns (events, attempts started within 5.5 s, raised)."""
+    from unittest.mock import patch
+
+    def go(loop):
+        async def inner():
+            from aioesphomeapi import api_pb2 as pb
+            from aioesphomeapi.client import APIClient
+            from aioesphomeapi.reconnect_logic import ReconnectLogic
+            net = simnet.Net(loop)
+            events = []
+            LiveAioZc.instances = []
+            gate = loop.create_future()
+
+            async def on_connect():
+                events.append("connect-begin")
+                if connect_pending:
+                    try:
+                        await gate
+                    except asyncio.CancelledError:
+                        events.append("connect-cancelled")
+                        raise
+                events.append("connect-end")
+
+            async def on_disconnect(expected):
+                events.append(f"disconnect-begin({bool(expected)})")
+                if slow_on == "disconnect":
+                    try:
+                        await asyncio.sleep(0.25)
+                    except asyncio.CancelledError:
+                        events.append("disconnect-cancelled")
+                        raise
+                events.append("disconnect-end")
+
+            async def on_connect_error(err):
+                events.append("error:" + type(err).__name__)
+            raised = None
+            with net.patched(), patch("aioesphomeapi.zeroconf.AsyncZeroconf", LiveAioZc):
+                cli = APIClient("10.0.0.1", 6053, None)
+                rl = ReconnectLogic(client=cli, on_connect=on_connect, on_disconnect=on_disconnect, on_connect_error=on_connect_error, name="dev")
+                await rl.start()
+                await simnet.drain(loop)
+                tr = net.transports[-1]
+                tr.feed(simnet.plain_msg(pb.HelloResponse(api_version_major=1, api_version_minor=10, name="dev")))
+                tr.feed(simnet.plain_msg(pb.ConnectResponse(invalid_password=False)))
+                await simnet.drain(loop)
+                n_tr = len(net.transports)
+                try:
+                    if how == "force":
+                        await cli.disconnect(force=True)
+                    else:
+                        t = asyncio.ensure_future(cli.disconnect())
+                        await simnet.drain(loop)
+                        tr.feed(simnet.plain_msg(pb.DisconnectResponse()))
+                        await simnet.drain(loop)
+                        await t
+                except Exception as e:  # noqa: BLE001
+                    raised = type(e).__name__
+                await simnet.drain(loop)
+                if connect_pending and not gate.done():
+                    gate.set_result(None)
+                    await simnet.drain(loop)
+                await simnet.advance(loop, by=0.5)
+                await simnet.advance(loop, by=5.0)
+                attempts = len(net.transports) - n_tr
+                await rl.stop()
+                await simnet.drain(loop)
+                for t in asyncio.all_tasks(loop):
+                    if t is not asyncio.current_task():
+                        t.cancel()
+            return events, attempts, raised
+        return inner()
+    return simnet.run(go)
+
+
+def name_forms_probe(name, address, ctor_name="<same>", record_for=None):
     """ReconnectLogic(name=...) for a client addressed by `address`: after a failed attempt a matching mDNS record for the device
-    (named by `name`, or - when no name is given - by the host part of a local address) starts the next attempt at once."""
+    (named by `name`, or - when no name is given - by the host part of a local address) starts the next attempt at once.
+    With ctor_name given the manager is constructed with that name and `name` is assigned to its public attribute afterwards
+    (as an application does once the device has told its name); record_for: the record delivered names this device instead."""
     def go(loop):
         async def inner():
             import zeroconf
@@ -580,7 +661,9 @@ def name_forms_probe(name, address):
 
             async def cb(*a):
                 pass
-            rl = ReconnectLogic(client=run.cli, on_connect=cb, on_disconnect=cb, on_connect_error=cb, name=name)
+            rl = ReconnectLogic(client=run.cli, on_connect=cb, on_disconnect=cb, on_connect_error=cb, name=name if ctor_name == "<same>" else ctor_name)
+            if ctor_name != "<same>":
+                rl.name = name
             await rl.start()
             await simnet.drain(loop)
             cli = run.cli
@@ -589,7 +672,7 @@ def name_forms_probe(name, address):
             cli.pending[1].set_exception(APIConnectionError("nope"))
             await simnet.drain(loop)
             n0 = len(cli.attempt_times)
-            dev = name or address.partition(".")[0]
+            dev = record_for or name or address.partition(".")[0]
             rec = DNSPointer("_esphomelib._tcp.local.", _TYPE_PTR, _CLASS_IN, 1000, f"{dev}._esphomelib._tcp.local.")
             for listener in list(run.aiozc.zeroconf.listeners):
                 listener.async_update_records(None, 0.0, [zeroconf.RecordUpdate(rec, None)])
@@ -707,6 +790,15 @@ def run_integration_probes(rep):
             rep.violation("C18/record-ignored", f"ReconnectLogic(name={name!r}) for a client addressed {address!r}: one attempt failed, then a matching mDNS record for the device "
                           f"arrives while it is waiting: {res} (expected one attempt at once, listener removed by stop())",
                           {"kind": "name-forms", "name": name, "address": address})
+    for ctor_name, name, address, record_for, want in ((None, "dev", "10.0.0.1", None, 1), ("old", "dev", "10.0.0.1", None, 1), ("old", "dev", "10.0.0.1", "old", 0),
+                                                       (None, "dev", "kitchen.local", None, 1), ("dev", "dev", "10.0.0.1", "other", 0)):
+        res = name_forms_probe(name, address, ctor_name, record_for)
+        rep.case(("name-assigned", ctor_name, name, address, record_for), True, sample={"name_assigned_later": [ctor_name, name, address, record_for], "result": res})
+        rep.bump("probe:name-assigned")
+        if not res.startswith(f"{want} attempt(s) at once, 0 listener"):
+            rep.violation("C18/record-ignored" if want else "C18/foreign-record", f"ReconnectLogic(name={ctor_name!r}) for a client addressed {address!r}, then name = {name!r} assigned before start(); one attempt "
+                          f"failed, then an mDNS record for {record_for or name!r} arrives while it is waiting: {res} (expected {want} attempt(s) at once, listener removed by stop())",
+                          {"kind": "name-forms", "name": name, "address": address, "ctor_name": ctor_name, "record_for": record_for})
     for cycles in (0, 1, 2):
         res = owned_engine_restart_probe(cycles)
         rep.case(("owned-engine-restart", cycles), True, sample={"owned_engine_restart": cycles, "result": res})
@@ -730,6 +822,19 @@ def run_integration_probes(rep):
     if any(e.startswith("error") for e in out["events"]) or out["new_attempts_at_once"] != 1:
         rep.violation("C18/no-immediate-retry", "real APIClient + ReconnectLogic, established session reset by the peer, on_disconnect returns without suspending: "
                       f"{out['new_attempts_at_once']} new attempt(s) started at once, callbacks {out['events']} (an unexpected disconnect is retried immediately)", replay)
+    for how in ("graceful", "force"):
+        for slow_on, connect_pending in ((None, False), ("disconnect", False), (None, True), ("disconnect", True)):
+            events, attempts, raised = app_disconnect_probe(how, slow_on, connect_pending)
+            replay = {"kind": "app-disconnect", "how": how, "slow_on": slow_on, "connect_pending": connect_pending}
+            rep.case(("app-disconnect", how, slow_on, connect_pending), True, sample={"probe": replay, "events": events, "attempts": attempts})
+            rep.bump("probe:app-disconnect")
+            where = (f"real APIClient + started ReconnectLogic, the application calls client.disconnect({'force=True' if how == 'force' else ''}) on the established session"
+                     + (", on_disconnect awaits 0.25 s" if slow_on else "") + (", on_connect still running" if connect_pending else ""))
+            n_begin = sum(1 for e in events if e.startswith("disconnect-begin"))
+            if raised or n_begin != 1 or "disconnect-begin(True)" not in events or events.count("disconnect-end") != 1 or "disconnect-cancelled" in events:
+                rep.violation("C18/on-disconnect-lost", f"{where}: callbacks {events}{' raised ' + raised if raised else ''} - on_disconnect must run once per ended session, to its end, with expected=True", replay)
+            elif attempts != 1:
+                rep.violation("C18/no-retry", f"{where}: {attempts} attempt(s) started within 5.5 s of the expected disconnect (callbacks {events}); the next attempt follows the 5 s cool-down", replay)
     out = integration_probe("record")
     replay = {"kind": "integration-probe", "scenario": "record"}
     rep.case(("integration", "record"), True, sample={"probe": replay, "result": out})
@@ -835,8 +940,11 @@ def replay(path):
         common.setup_impl_path()
         print(owned_engine_restart_probe(d["cycles"]))
         return 0
+    if d.get("kind") == "app-disconnect":
+        print(app_disconnect_probe(d["how"], d["slow_on"], d["connect_pending"]))
+        return 0
     if d.get("kind") == "name-forms":
-        print(name_forms_probe(d["name"], d["address"]))
+        print(name_forms_probe(d["name"], d["address"], d.get("ctor_name", "<same>"), d.get("record_for")))
         return 0
     if d.get("kind") == "long-failure-run":
         print(long_failure_run(d["failures"]))
